@@ -116,6 +116,70 @@ func loadCorpus() {
 	}
 }
 
+// fuzzExpr builds a random expression (targets and non-targets alike) so that
+// every grammar action that classifies or converts an expression meets every
+// kind of operand, nested to a small depth.
+func fuzzExpr(r *simrt.Rand, depth int) string {
+	atoms := []string{"a", "b.c", "d[0]", "e[1:2]", "1", "'s'", "None", "f()", "g(x)(y)", "...", "-h", "i + j", "k < l", "lambda: m", "(yield)", "not n", "o if p else q", "[r for r in s]", "{1: 2}", "{3}", "b'x'", "t.u[v].w", "True", "(x)", "()", "[]", "await_", "x == y", "*z", "**kw", "x := 1"}
+	if depth <= 0 || r.Chance(1, 3) {
+		return atoms[r.Intn(len(atoms))]
+	}
+	n := 1 + r.Intn(3)
+	parts := make([]string, n)
+	for i := range parts {
+		parts[i] = fuzzExpr(r, depth-1)
+	}
+	switch r.Intn(8) {
+	case 0:
+		return "(" + strings.Join(parts, ", ") + ",)"
+	case 1:
+		return "[" + strings.Join(parts, ", ") + "]"
+	case 2:
+		return "*" + parts[0]
+	case 3:
+		return "*[" + strings.Join(parts, ", ") + "]"
+	case 4:
+		return "*(" + strings.Join(parts, ", ") + ")"
+	case 5:
+		return strings.Join(parts, ", ")
+	case 6:
+		return "(" + parts[0] + ")"
+	default:
+		return parts[0] + "." + "attr"
+	}
+}
+
+func fuzzStmt(r *simrt.Rand) string {
+	t := fuzzExpr(r, 2+r.Intn(2))
+	u := fuzzExpr(r, 1)
+	switch r.Intn(14) {
+	case 0, 1, 2:
+		return t + " = x\n"
+	case 3:
+		return t + " = " + u + " = y\n"
+	case 4:
+		return "del " + t + "\n"
+	case 5:
+		return "for " + t + " in x:\n    pass\n"
+	case 6:
+		return "with y as " + t + ":\n    pass\n"
+	case 7:
+		return t + " += 1\n"
+	case 8:
+		return "[0 for " + t + " in x]\n"
+	case 9:
+		return "def f(" + t + "):\n    pass\n"
+	case 10:
+		return "def f():\n    " + t + " = x\n    " + []string{"break", "continue", "return 1", "yield 2", "nonlocal q", "global a"}[r.Intn(6)] + "\n"
+	case 11:
+		return "class C(" + t + "):\n    " + []string{"return 1", "break", "yield", "x = " + u, "continue"}[r.Intn(5)] + "\n"
+	case 12:
+		return "g(" + t + ", " + u + ", k=1, k=2)\n"
+	default:
+		return "lambda " + t + ": " + u + "\n"
+	}
+}
+
 func (Engine) Gen(seed uint64, idx int, tier string) interface{} {
 	loadCorpus()
 	r := simrt.NewRand(simrt.Mix(seed, 0x11, uint64(idx)))
@@ -136,9 +200,15 @@ func (Engine) Gen(seed uint64, idx int, tier string) interface{} {
 			break
 		}
 		fallthrough
-	case x < 6:
+	case x < 5:
 		sc.Src = gen.GenScope(simrt.NewRand(r.Uint64()), 2).Render()
 		sc.Name = "<scopegen>"
+	case x < 8:
+		n := 1 + r.Intn(2)
+		for i := 0; i < n; i++ {
+			sc.Src += fuzzStmt(r)
+		}
+		sc.Name = "<exprfuzz>"
 	default:
 		n := 1 + r.Intn(3)
 		for i := 0; i < n; i++ {
@@ -155,6 +225,9 @@ func (Engine) Gen(seed uint64, idx int, tier string) interface{} {
 	nf := 1 + r.Intn(2)
 	if r.Chance(1, 8) {
 		nf = 3
+	}
+	if sc.Name == "<exprfuzz>" && r.Chance(2, 3) {
+		nf = 0
 	}
 	kinds := []string{"trunc", "trunc", "flip", "insert", "insert", "delete", "dupline", "swapline", "indent", "splice", "splice", "splice"}
 	for i := 0; i < nf; i++ {
@@ -388,6 +461,28 @@ type result struct {
 	class  string
 	msg    string
 	hasLoc bool
+	locErr string
+}
+
+// checkLoc: a SyntaxError must carry the file name it was given, a line >= 1
+// (or 0 for an empty input) and an integer offset >= 0.
+func checkLoc(e *py.Exception) (bool, string) {
+	fn, a := e.Dict["filename"]
+	ln, b := e.Dict["lineno"]
+	of, c := e.Dict["offset"]
+	if !a || !b || !c {
+		return false, "filename/lineno/offset missing"
+	}
+	if s, ok := fn.(py.String); !ok || string(s) != "<fault>" {
+		return false, fmt.Sprintf("filename is %v, not the name the source was compiled under", fn)
+	}
+	if n, ok := ln.(py.Int); !ok || n < 0 {
+		return false, fmt.Sprintf("lineno is %v", ln)
+	}
+	if n, ok := of.(py.Int); !ok || n < 0 {
+		return false, fmt.Sprintf("offset is %v", of)
+	}
+	return true, ""
 }
 
 func classify(code interface{}, err error, isNil bool) result {
@@ -400,18 +495,13 @@ func classify(code interface{}, err error, isNil bool) result {
 	r := result{class: pyhost.ExcClass(err), msg: err.Error()}
 	if py.IsException(py.SyntaxError, err) {
 		r.kind = "syntax"
+		r.locErr = "not a *py.Exception"
 		if e, ok := err.(*py.Exception); ok {
-			_, a := e.Dict["filename"]
-			_, b := e.Dict["lineno"]
-			_, c := e.Dict["offset"]
-			r.hasLoc = a && b && c
+			r.hasLoc, r.locErr = checkLoc(e)
 		}
 		if ei, ok := err.(py.ExceptionInfo); ok {
 			if e, ok := ei.Value.(*py.Exception); ok {
-				_, a := e.Dict["filename"]
-				_, b := e.Dict["lineno"]
-				_, c := e.Dict["offset"]
-				r.hasLoc = a && b && c
+				r.hasLoc, r.locErr = checkLoc(e)
 			}
 		}
 	} else {
@@ -472,7 +562,7 @@ func (Engine) Exec(sci interface{}, opt harness.ExecOpts) *harness.Outcome {
 			out.Violate("nil-nil", "nilnil|"+what, "%s returned neither a result nor an error (%s)", what, desc)
 		case "syntax":
 			if !r.hasLoc {
-				out.Violate("syntax-error-without-location", "noloc|"+r.class, "%s: %s carries no filename/lineno/offset: %s (%s)", what, r.class, r.msg, desc)
+				out.Violate("syntax-error-without-location", "noloc|"+r.class, "%s: %s does not carry file name, line and offset (%s): %s (%s)", what, r.class, r.locErr, r.msg, desc)
 			}
 		default:
 			if readerErr && (r.class == "OSError" || r.class == "IOError") {
